@@ -68,15 +68,24 @@ func (c *Conn) handleAppend(tag string, dec *imapwire.Decoder) error {
 		return err
 	}
 
+	var refuseErr error
 	if lit.Size() > appendLimit {
-		return &imap.Error{
+		refuseErr = &imap.Error{
 			Type: imap.StatusResponseTypeNo,
 			Code: imap.ResponseCodeTooBig,
 			Text: fmt.Sprintf("Literals are limited to %v bytes for this command", appendLimit),
 		}
+	} else {
+		refuseErr = c.acceptLiteral(lit.Size(), nonSync)
 	}
-	if err := c.acceptLiteral(lit.Size(), nonSync); err != nil {
-		return err
+	if refuseErr != nil {
+		if nonSync {
+			// The client sends the payload without waiting for our verdict:
+			// skip it so that it isn't interpreted as commands
+			io.Copy(io.Discard, lit)
+			dec.CRLF()
+		}
+		return refuseErr
 	}
 
 	c.setReadTimeout(literalReadTimeout)
